@@ -185,6 +185,10 @@ def run(ctx):
     _r2_positions(ctx)
     _r3_cycles(ctx)
     _r4_subscripts(ctx)
+    run.rule("C07.R5", "mapping lookups with non-constant keys on load paths "
+             "are guarded (try / membership test / iteration / slot table)",
+             floor=12)
+    _r5_mappings(ctx)
     _r7_validator(ctx)
     _r8_unpack(ctx)
 
@@ -514,6 +518,126 @@ def _subscript_guard(ctx, fi, node, idx):
 
 def _is_error_call(call):
     return isinstance(call.func, ast.Attribute) and call.func.attr == "error"
+
+
+# ---------------------------------------------------------------------- R5
+
+# Reasoned, frozen exceptions to R5, keyed by (function, construct).
+R5_EXCEPTIONS = {
+    ("ZConfig.loader.CompositeHandler.__call__", "d[handler]"):
+        "every handler name is present: established by the missing-name loop "
+        "that precedes the calling loop (C16.R1/R2)",
+    ("ZConfig.loader.SchemaLoader.schemaComponentSource",
+     "sys.modules[package]"):
+        "follows a successful __import__(package) in the same function",
+    ("ZConfig.loader.openPackageResource", "sys.modules[package]"):
+        "follows a successful __import__(package) in the same function",
+}
+
+
+def _r5_mappings(ctx):
+    """Mapping subscripts with a non-constant key on load paths: inside a try
+    that catches KeyError/LookupError, dominated by a membership test of the
+    same key in the same mapping, iterating that mapping, a slot-table lookup
+    by a schema attribute name, or a constant key of a folded module table."""
+    run, m, P = ctx.run, ctx.model, ctx.program
+    roots = [m.fn(q) for q, _ in ENTRY_POINTS] + [
+        m.fn("ZConfig.loader.CompositeHandler.__call__")]
+    reach = P.reachable(roots)
+    for q, fi in sorted(reach.items()):
+        if fi.module.name in ("ZConfig.schema", "ZConfig._schema_utils",
+                              "ZConfig.schemaless"):
+            continue
+        g = None
+        for x in walk_shallow(fi.node):
+            if not (isinstance(x, ast.Subscript) and isinstance(x.ctx,
+                                                                 ast.Load)):
+                continue
+            sl = x.slice
+            if isinstance(sl, ast.Slice):
+                continue
+            if isinstance(sl, ast.Constant) and isinstance(sl.value, int):
+                continue
+            if isinstance(sl, ast.UnaryOp):
+                continue
+            bt = P.type_of(fi, fi.module, x.value)
+            if not (("dict" in bt) or any(t.startswith("X:sys.modules")
+                                          for t in bt)):
+                continue
+            construct = src(x)
+            key_txt, base_txt = src(sl), src(x.value)
+            why = None
+            if (fi.qualname, construct) in R5_EXCEPTIONS:
+                why = "reasoned: " + R5_EXCEPTIONS[(fi.qualname, construct)]
+            # (a) enclosing try
+            p_ = x
+            while why is None and p_ is not None and p_ is not fi.node:
+                par = getattr(p_, "_parent", None)
+                if isinstance(par, ast.Try) and p_ in par.body:
+                    for h in par.handlers:
+                        names = [src(t).split(".")[-1] for t in (
+                            h.type.elts if isinstance(h.type, ast.Tuple)
+                            else [h.type])] if h.type is not None else [
+                                "BaseException"]
+                        if set(names) & {"KeyError", "LookupError",
+                                         "Exception", "BaseException"}:
+                            why = "inside try/except %s" % "/".join(names)
+                p_ = par
+            # (e) constant key of a folded module-level table
+            if why is None and isinstance(sl, ast.Constant):
+                try:
+                    tbl = m.resolve(fi.module, x.value)
+                    modname, _, nm = (tbl or "").rpartition(".")
+                    vals = m.modules[modname].assigns.get(nm) if modname in \
+                        m.modules else None
+                    if vals and isinstance(vals[0], ast.Dict) and any(
+                            isinstance(k, ast.Constant)
+                            and k.value == sl.value for k in vals[0].keys):
+                        why = "constant key present in the module table"
+                except Exception:
+                    pass
+            # (c) key iterates the mapping
+            if why is None:
+                p_ = x
+                while p_ is not None and p_ is not fi.node:
+                    par = getattr(p_, "_parent", None)
+                    if isinstance(par, (ast.For, ast.comprehension)) \
+                            if False else isinstance(par, ast.For):
+                        it = src(par.iter)
+                        tg = src(par.target)
+                        if key_txt in [t.strip() for t in tg.strip("()")
+                                       .split(",")] and (
+                                it == base_txt or it.startswith(base_txt
+                                                                + ".")):
+                            why = "key iterates the mapping"
+                    p_ = par
+            # (d) slot table by schema attribute name
+            if why is None and base_txt in ("self._values", "values"):
+                for val, how in ctx.flow._assignments(fi, key_txt):
+                    if how == "plain" and isinstance(val, ast.Attribute) \
+                            and val.attr == "attribute":
+                        why = ("slot table indexed by a child's attribute "
+                               "name (one slot per child is created by the "
+                               "matcher constructor, C02.R1)")
+            # (b) dominated by a membership test
+            if why is None:
+                if g is None:
+                    g = cfgmod.CFG(fi.node)
+                for cn in g.node_containing(x):
+                    for t, pol in g.path_conditions(cn):
+                        a = t.ast
+                        if isinstance(a, ast.Compare) and len(a.ops) == 1 \
+                                and src(a.left) == key_txt \
+                                and src(a.comparators[0]) in (
+                                    base_txt, base_txt + ".keys()"):
+                            if (isinstance(a.ops[0], ast.In) and pol) or (
+                                    isinstance(a.ops[0], ast.NotIn)
+                                    and not pol):
+                                why = "dominated by `%s`" % src(a)
+            run.check(why is not None, "C07.R5", fi.qualname, construct,
+                      why or "", "the mapping lookup %s has no guard: a key "
+                      "derived from configuration text that is absent raises "
+                      "KeyError" % construct, loc=m.loc(fi, x))
 
 
 # ---------------------------------------------------------------------- R7
